@@ -34,6 +34,7 @@ def run_property(pid, tier, repo=None, write=True):
                 "expression_helpers": {k: sorted(set(v)) for k, v in sorted(getattr(idx, "opened", {}).items())},
                 "cursor_lists": {k: v for k, v in sorted(getattr(idx, "scalarised", {}).items())},
                 "yield_from_comprehensions": dict(sorted(getattr(idx, "yieldfroms", {}).items())),
+                "enumerate_idioms": dict(sorted(getattr(idx, "enumerates", {}).items())),
                 "sum_loops": {k: v for k, v in sorted(getattr(idx, "sums", {}).items())},
                 "extend_loops": {k: v for k, v in sorted(getattr(idx, "extends", {}).items())}}
         rep.notes.append({"canonical_view": {k: v for k, v in view.items() if v}})
